@@ -141,6 +141,11 @@ type Store struct {
 	// attributed to the actor it sets) and returns a fault for this call.
 	BeforeCall func(c *Call) Fault
 
+	// Graceful lists kinds whose deletion is graceful even without finalizers (like Pods, or Namespaces
+	// held by spec.finalizers): a delete only marks the object terminating; it disappears when
+	// FinishTermination is called (kubelet / namespace controller actor).
+	Graceful map[schema.GroupKind]bool
+
 	// TraceReads controls whether get/list calls are recorded.
 	TraceReads bool
 
@@ -395,4 +400,17 @@ func gvkOf(o map[string]any) schema.GroupVersionKind {
 	av, _ := o["apiVersion"].(string)
 	k, _ := o["kind"].(string)
 	return schema.FromAPIVersionAndKind(av, k)
+}
+
+// FinishTermination removes a terminating object of a graceful kind that has no finalizers left.
+func (s *Store) FinishTermination(k Key) bool {
+	o, ok := s.objs[k]
+	if !ok || MetaString(o, "deletionTimestamp") == "" || len(finalizersOf(o)) > 0 {
+		return false
+	}
+	s.Trace = append(s.Trace, &Call{Seq: len(s.Trace) + 1, Actor: "kubelet", Source: "client", Verb: "delete", Key: k, Pre: DeepCopyJSON(o), Post: nil, recorded: true})
+	delete(s.objs, k)
+	delete(s.managed, k)
+	s.rv++
+	return true
 }
